@@ -7,6 +7,7 @@
   every target and every chunk window.
 -/
 import BioCantor.Proofs.LiftMain
+import BioCantor.Proofs.LiftRelocate
 namespace BioCantor.Props.C04
 open BioCantor BioCantor.Spec BioCantor.Model BioCantor.Proofs
 
@@ -33,6 +34,31 @@ theorem lift_to_sequence (k : SeqKey) (c : Location) (ch : Chain) (hc : WF c) (h
 theorem chunk_down (l : Location) (hl : WF l) (w : Blk) (wst : Strand) :
     okChunkDown l w wst (ans (chunkDown l w wst)) = true :=
   chunkDown_ok l hl w wst
+
+/-- T5: the whole of `liftover_location_to_seq_chunk_parent` on hierarchies with REAL sequence.  Chunk A (window
+    `w1`, strand `s1`) is cut from the chromosome `G` by `seq_chunk_to_parent`; optionally a spliced sequence sits
+    on it by the placement `tx`; the child `c` lives on the nearest of the two and is moved onto another chunk of
+    `G` (`tgt = some (w2, s2)`) or onto `G` as a whole (`tgt = none`).  For EVERY genome, every pair of windows and
+    strands, every well-formed placement and child (any number of blocks, self-overlapping ones included):
+      * hierarchies that cannot exist (window off the chromosome, placement beyond the chunk, child beyond its
+        parent) and children with a position off their placement are refused;
+      * otherwise the answer covers exactly the child's bases composed through EVERY level up to the chromosome,
+        clipped to the target window and expressed in the target's coordinates (mirrored on a minus window), on
+        the composed strand — in the same 5'→3' order for non-self-overlapping layouts, as a multiset otherwise —
+        and is the empty location exactly when no composed base lies in the window;
+      * the letters extracted from the answer on the target are the chromosome's letters at the composed
+        positions, complemented where the composed orientation is minus (lift-over preserves sequence).
+    Both the location clause and the sequence clause are proved; nothing is left out. -/
+theorem relocate_spec (G : List Char) (w1 : Blk) (s1 : Strand) (tx : Option Location) (c : Location)
+    (tgt : Option (Blk × Strand)) (hc : WF c) (htx : ∀ t, tx = some t → WF t) :
+    okRelocate G w1 s1 tx c tgt (ans (relocate G w1 s1 tx c tgt)) = true :=
+  Reloc.relocate_ok G w1 s1 tx c tgt hc htx
+
+-- non-vacuity of `relocate_spec`: a two-block child (minus) on a two-block spliced sequence (minus) on a minus-strand
+-- chunk; the hypotheses hold and the model answers with a location and letters
+example : WF (.compound ⟨[(0, 1), (2, 4)], .minus⟩) := by decide
+example : ∀ t, (some (Location.compound ⟨[(0, 2), (4, 7)], .minus⟩)) = some t → WF t := by
+  intro t h; injection h with h; subst h; decide
 
 -- non-vacuity: a two-level chain with a minus-strand two-block placement and consistent sequences
 example : ChainWF [⟨['a'], ['x'], some ['T', 'C', 'A'], none⟩,
